@@ -240,6 +240,14 @@ func NewBlockOf(gen *Gen, a *Act, writecache int) (*Block, error) {
 		return nil, err
 	}
 
+	// the block the generator built hands the database the number of records the spec gave it (else the
+	// size classes mean nothing) - a property of the harness, checked without the code under test
+	if a.Nb > 0 {
+		if n := b.BatchedRecords(); n != a.Nb {
+			return nil, errors.Errorf("the generated block hands over %d batched records, the spec says %d", n, a.Nb)
+		}
+	}
+
 	if a.Wc != nil {
 		switch {
 		case !*a.Wc:
@@ -351,14 +359,11 @@ func (r *Runner) steps(c *Case, db *DB, gen *Gen, res *Result) {
 				return
 			}
 
-			// the block the generator built has the number of records the spec gave it (else the size
-			// classes mean nothing): machinery, not a verdict
+			// records found in the storage for the new temp database (reported only: the statement is about
+			// reads, and every record is read where the case compares)
 			if a.Nt > 0 && a.G == 1 {
 				if n := db.CountRecords() - before; n != a.Nt {
-					res.Diffs = nil
-					res.Fatal = fmt.Sprintf("step %d: the generated block has %d records in its temp database, the spec says %d", i, n, a.Nt)
-
-					return
+					res.Info = append(res.Info, tag(Diff{Read: "temp-database-records", Arg: strconv.Itoa(a.H), Got: strconv.Itoa(n), Want: strconv.Itoa(a.Nt)}))
 				}
 			}
 		case "MergeOne":
